@@ -418,6 +418,11 @@ fn structural<S: ShortGroupSignatureScheme>(em: &mut Emitter, rng: &mut Rng, sui
                     }),
                     None => em.count("create:model-line-skipped(key != id)"),
                 }
+                if !r.is_panic() {
+                    if let Some((line, got)) = create_proofs_line(&scn.credentials, &sch, r.as_ok()) {
+                        em.op(line, got);
+                    }
+                }
                 match r {
                     Out::Panic(msg) => {
                         let (sig, at) = site_sig("create");
